@@ -82,6 +82,10 @@ class ArrayGen:
             for cap in (2 ** 61 - 1, 2 ** 61, 2 ** 61 + 1, 2 ** 62, 2 ** 63, SIZE_MAX - 1, SIZE_MAX):
                 for ex in ("2", "1.5", "0.5"):
                     out.append([f"new cap={cap} exp={ex}", "add 1", "destroy"])
+            # growth steps whose byte size wraps (A10): refused with CC_ERR_MAX_CAPACITY, state untouched
+            for cap, ex in ((1, 2 ** 61), (1, 2 ** 62), (1, 2 ** 63), (2, 2 ** 60), (3, 2 ** 61), (1, 2 ** 64)):
+                out.append([f"new cap={cap} exp={ex}"] + [f"add {i}" for i in range(1, cap + 2)] +
+                           ["add_at 9 0", "it_new", "it_next", "it_add 8", "remove_last", "add 7", "destroy"])
         out.append(["new cap=2", "add 1", "add 2", "add 3", "destroy_cb"])
         return out
 
